@@ -161,6 +161,53 @@ def module_devs(tkey, seed=0, spikes="all", opt8="all"):
     return devs
 
 
+def reduced_devs(tkey, seed=0):
+    """A REDUCED single-deviation menu used for k = 2 in the quick tier: every controller at {min, max}
+    (enums: first and last member), every option at its extreme values,
+    unit/dependant extremes, the compound MetaModule / MultiCtl deviations and a handful of common fields.
+    All PAIRS of these are enumerated (complete for this menu), so an interaction between any two settings of
+    a module at their boundary values is covered in the quick tier; the full menu's pairs are the thorough tier."""
+    t = spec.types()[tkey]
+    full = module_devs(tkey, seed, spikes="few", opt8="few")
+    by_attr = {c.attr: c for c in t.controllers}
+    out = []
+    for d in full:
+        k = d["k"]
+        if k == "ctl":
+            c = by_attr[d["n"]]
+            if c.kind in ("range", "compact", "no_offset"):
+                keep = {c.min, c.max}
+            elif c.kind == "enum":
+                vals = sorted(set(c.members.values()))
+                keep = {vals[0], vals[-1]} if len(vals) > 2 else {vals[(seed + 1) % len(vals)]}
+            else:
+                keep = {0, 1}
+            if d["v"] in keep:
+                out.append(d)
+        elif k == "unit":
+            c = by_attr[d["n"]]
+            lo, hi = c.ranges[[u for u, v in by_attr[d["u"]].members.items() if v == d["uv"]][0]]
+            if d["v"] in (lo, hi):
+                out.append(d)
+        elif k == "opt":
+            o = next(x for x in t.options if x.name == d["n"])
+            top = o.max if o.max is not None else 2 ** o.size - 1
+            if d["v"] in (0, top, top // 2 + 1 if top > 1 else top):
+                out.append(d)
+        elif k in ("mmud", "mcmapx"):
+            out.append(d)
+        elif k == "attr" and (d["n"], str(d["v"])) in {("name", "näme"), ("finetune", "-256"), ("midi_in_channel", "16"),
+                                                       ("midi_out_bank", "0"), ("scale", "0"), ("relative_note", "128")}:
+            out.append(d)
+        elif k == "flag" and d["n"] in ("mute", "bypass"):
+            out.append(d)
+        elif k == "cmid" and d["v"] == CMID_VALUES[2]:
+            out.append(d)
+        elif k == "fill" and d.get("pat") in ("max", "const") and d.get("v") in (None, FLOATS[1]):
+            out.append(d)
+    return out
+
+
 def dev_field(d):
     """Two deviations with the same field key overwrite each other (not a 2-deviation object)."""
     k = d["k"]
